@@ -58,6 +58,14 @@ def make_proc(cfg) -> seams.FakeProcess:
         p.stdout.feed_eof()
     elif b == "exit-at-spawn":
         p.exit(3)
+    elif b == "slow-start":
+        p.spawn_delay = 0.5
+    sig = cfg.get("signals")
+    if sig == "ignore-term":
+        p.obey_term = None
+    elif sig == "ignore-both":
+        p.obey_term = None
+        p.obey_kill = None
     return p
 
 
@@ -209,6 +217,23 @@ def run_one(ctl: explorer.Ctl, cfg: Dict[str, Any]) -> Dict[str, Any]:
                 info["t_exit_begin"] = t0 + 2.5
                 with anyio.fail_after(2.5):
                     await use_client()
+            elif ex in ("scope-cancel-at-spawn", "scope-cancel-during-spawn"):
+                with anyio.CancelScope() as scope:
+                    if ex == "scope-cancel-at-spawn":
+                        def at_spawn():
+                            info["t_exit_begin"] = loop.time()
+                            scope.cancel()
+                        proc.on_spawned = at_spawn
+                    else:
+                        proc.spawn_delay = max(getattr(proc, "spawn_delay", 0), 0.5)
+                        info["never_spawned_ok"] = True
+
+                        def mid():
+                            info["t_exit_begin"] = loop.time()
+                            scope.cancel()
+                        loop.call_later(0.25, mid)
+                    await use_client()
+                outcome = "left-under-cancel"
             elif ex in ("scope-cancel-during-exit", "exception-then-scope-cancel-during-exit"):
                 with anyio.CancelScope() as scope:
                     async def canceller2():
@@ -244,12 +269,12 @@ def run_one(ctl: explorer.Ctl, cfg: Dict[str, Any]) -> Dict[str, Any]:
     status, val = loop.run_main(main())
     errors = loop.collect_errors()
     loop.abandon()
-    obs: Dict[str, Any] = {"status": status, "cfg": f"{b}/{ex}/{mo}/{cfg.get('order')}/{cfg.get('entry', 'stdio_client')}/{cfg.get('during')}"}
+    obs: Dict[str, Any] = {"status": status, "cfg": f"{b}/{ex}/{mo}/{cfg.get('order')}/{cfg.get('entry', 'stdio_client')}/{cfg.get('during')}/{cfg.get('signals')}"}
     viol: List[dict] = []
 
     def bad(cls, msg, **extra):
         viol.append({"sig": {"class": cls, "exit": ex, **extra},
-                     "msg": f"entry={cfg.get('entry', 'stdio_client')} behaviour={b} exit={ex} moment={mo} during={cfg.get('during')} order={cfg.get('order')} term={cfg.get('term_delay', 0.0)} "
+                     "msg": f"entry={cfg.get('entry', 'stdio_client')} behaviour={b} signals={cfg.get('signals')} exit={ex} moment={mo} during={cfg.get('during')} order={cfg.get('order')} term={cfg.get('term_delay', 0.0)} "
                             f"kill={cfg.get('kill_delay', 0.0)}: {msg}"})
 
     if status != "ok":
@@ -258,8 +283,15 @@ def run_one(ctl: explorer.Ctl, cfg: Dict[str, Any]) -> Dict[str, Any]:
         obs["violations"] = viol
         return obs
     pp = info["pp"]
-    if len(pp.spawned) != 1:
+    if len(pp.spawned) != 1 and not info.get("never_spawned_ok"):
         raise core.HarnessError("seam missing: stdio_client did not call anyio.open_process")
+    if not pp.spawned:
+        # cancelled while the spawn was still in progress: there is no child, nothing else to judge
+        obs["outcome"] = info["outcome"] + "/never-spawned"
+        if info["outcome"] != "left-under-cancel":
+            bad("wrong-exit-outcome", f"{info['outcome']}")
+        obs["violations"] = viol
+        return obs
     calls = [(c[0], round(c[1], 6) if c[1] is not None else None) for c in proc.calls]
     obs["calls"] = calls
     obs["outcome"] = info["outcome"]
@@ -276,7 +308,8 @@ def run_one(ctl: explorer.Ctl, cfg: Dict[str, Any]) -> Dict[str, Any]:
     # 2. propagation
     want = {"normal": "returned", "exception": "body-error-propagated", "task-cancel": "cancelled-propagated",
             "scope-cancel": "scope-cancelled", "fail-after": "timeout-propagated",
-            "scope-cancel-during-exit": "left-under-cancel",
+            "scope-cancel-during-exit": "left-under-cancel", "scope-cancel-at-spawn": "left-under-cancel",
+            "scope-cancel-during-spawn": "left-under-cancel",
             "exception-then-scope-cancel-during-exit": "left-under-cancel"}[ex]
     if info["outcome"] != want:
         bad("wrong-exit-outcome", f"context exit ended with {info['outcome']!r}, expected {want!r}")
@@ -383,6 +416,21 @@ def configs_for(tier: str):
     for td, kd, e, m in itertools.product(delays_t, delays_k, exits, moments):
         for o in ("fifo", "lifo"):
             timing.append({"behaviour": "well", "exit": e, "moment": m, "term_delay": td, "kill_delay": kd, "order": o})
+    # every behaviour combined with a child that ignores SIGTERM / both signals
+    for sig in ("ignore-term", "ignore-both"):
+        for b in BEHAVIOURS:
+            if b in ("ignore-term", "ignore-both", "exit-at-spawn"):
+                continue
+            for e in EXITS:
+                for m in (MOMENTS if tier == "thorough" else ["in-flight"]):
+                    for o in ("fifo", "lifo"):
+                        base.append({"behaviour": b, "exit": e, "moment": m, "order": o, "signals": sig})
+    # cancellation that lands while the context is being ENTERED: the instant the spawn completes, or mid-spawn
+    for b in BEHAVIOURS:
+        for e in ("scope-cancel-at-spawn", "scope-cancel-during-spawn"):
+            for sig in ("obey", "ignore-term"):
+                for o in ("fifo", "lifo"):
+                    base.append({"behaviour": b, "exit": e, "moment": "before-first", "order": o, "signals": sig})
     # cancellation that arrives while the context is already being left (shutdown in progress)
     for b in ("well", "slow-exit-0.5", "ignore-term", "ignore-both", "stdin-blocks", "stdout-flood"):
         for e in ("scope-cancel-during-exit", "exception-then-scope-cancel-during-exit"):
